@@ -384,85 +384,10 @@ def json_fields(P, R):
 
 # ------------------------------------------------------------------ R-BOUND
 def r_bound(P, R):
-    f = P.func('dd.bdd.BDD._next_free_level')
-    au.set_parents(f.node)
-    lower = upper = False
-    computed = False
-    for n in au.walk_no_defs(f.node):
-        if isinstance(n, ast.If) and n.body and isinstance(
-                n.body[-1], ast.Raise):
-            t = au.src(n.test).replace(' ', '')
-            if t in ('level<0', '0>level'):
-                lower = True
-            if 'len(self.vars)' in t and 'level' in t and any(
-                    op in t for op in ('>', '>=', '<', '!=', 'notin')):
-                upper = True
-        if isinstance(n, ast.Assign) and au.is_name(
-                n.targets[0], 'level') and au.src(n.value).replace(
-                    ' ', '') == 'len(self.vars)':
-            computed = True
-    if lower:
-        R.holds('R-BOUND', f.qualname, 'negative levels are refused')
-    else:
-        R.violation('R-BOUND', 'lower', f.qualname, 'level',
-                    'a negative explicit level is accepted',
-                    unit=f.unit.rel, line=f.lineno)
-    if not computed:
-        R.violation('R-BOUND', 'default', f.qualname, 'level',
-                    'without an explicit level the next bottom level '
-                    '`len(self.vars)` is no longer chosen',
-                    unit=f.unit.rel, line=f.lineno)
-    else:
-        R.holds('R-BOUND', f.qualname, 'default level is len(self.vars)')
-    if upper:
-        R.holds('R-BOUND', f.qualname, 'explicit levels are bounded above')
-    else:
-        R.violation(
-            'R-BOUND', 'upper', f.qualname, 'level',
-            'an explicit level is only checked to be non-negative and '
-            'unoccupied; nothing bounds it by the number of variables, so '
-            'add_var("z", 5) with two variables is accepted and leaves '
-            'the levels {0, 1, 5}: not a bijection onto 0..n-1, and the '
-            'terminal at level 3 is above z', unit=f.unit.rel,
-            line=f.lineno)
-    # occupancy test
-    # occupancy: the level is returned only when no variable has it
-    occ = None
-    for n in au.walk_no_defs(f.node):
-        if isinstance(n, ast.Assign) and isinstance(
-                n.value, ast.Call) and au.call_name(
-                    n.value) == 'get' and au.chain(
-                        n.value.func.value) == ['self', '_level_to_var'] \
-                and isinstance(n.targets[0], ast.Name):
-            occ = n.targets[0].id
-    rets = [n for n in au.walk_no_defs(f.node) if isinstance(n, ast.Return)
-            and au.is_name(n.value, 'level')]
-    guarded = occ is not None and rets and all(
-        isinstance(getattr(r, '_parent', None), ast.If) and au.src(
-            r._parent.test).replace(' ', '') == f'{occ}isNone'
-        and r in r._parent.body for r in rets)
-    raises = [n for n in au.walk_no_defs(f.node) if isinstance(n, ast.Raise)
-              and au.raised_name(n) == 'ValueError']
-    if guarded and raises:
-        R.holds('R-BOUND', f.qualname, 'an occupied level is refused')
-    elif occ is None or not rets:
-        R.undecided('R-BOUND', f.qualname, 'occupancy test',
-                    'unrecognised form')
-    else:
-        R.violation('R-BOUND', 'occupied', f.qualname, 'level',
-                    'the level is returned on a path that is not guarded '
-                    'by "no variable has this level": an occupied level '
-                    'is accepted and two variables share it',
-                    unit=f.unit.rel, line=f.lineno)
-    # _check_var: same name, different level is refused
-    c = P.func('dd.bdd.BDD._check_var')
-    t = au.src(c.node).replace(' ', '')
-    if 'iflevelisNoneorlevel==var_level:\nreturnvar_level' in t.replace(
-            '    ', '') and 'raiseValueError' in t:
-        R.holds('R-BOUND', c.qualname, 'existing name: same level or no '
-                'level accepted, another level refused')
-    else:
-        R.undecided('R-BOUND', c.qualname, '_check_var', 'unrecognised')
+    """add_var / _check_var / _next_free_level / _init_terminal, decided by
+    interpreting them over small managers (rules/models.py)."""
+    from . import models
+    models.add_var_model(P, R)
 r_bound.NAME = 'R-BOUND'
 
 
